@@ -71,6 +71,7 @@ extern int  cfg_include_stack_ptr;
 
 static int cfg_parse_internal(cfg_t *cfg, int level, int force_state, cfg_opt_t *force_opt);
 static void cfg_free_opt_array(cfg_opt_t *opts);
+static int cfg_free_section(cfg_t *cfg);
 static int cfg_print_pff_indent(cfg_t *cfg, FILE *fp,
 				cfg_print_filter_func_t fb_pff, int indent);
 
@@ -1028,13 +1029,13 @@ static int cfg_setopt_value(cfg_t *cfg, cfg_opt_t *opt, const char *value, cfg_v
 			}
 
 			if (!is_set(CFGF_DEFINIT, opt->flags) && cfg_init_defaults(sec) != CFG_SUCCESS) {
-				cfg_free(sec);
+				cfg_free_section(sec);
 				return CFG_FAIL;
 			}
 
 			if (val->section) {
 				val->section->path = NULL; /* Global search path */
-				cfg_free(val->section);
+				cfg_free_section(val->section);
 			}
 			val->section = sec;
 		} else if (!is_set(CFGF_DEFINIT, opt->flags)) {
@@ -2025,7 +2026,7 @@ DLLIMPORT int cfg_free_value(cfg_opt_t *opt)
 				free((void *)opt->values[i]->string);
 			} else if (opt->type == CFGT_SEC) {
 				opt->values[i]->section->path = NULL; /* Global search path */
-				cfg_free(opt->values[i]->section);
+				cfg_free_section(opt->values[i]->section);
 			} else if (opt->type == CFGT_PTR && opt->freecb && opt->values[i]->ptr) {
 				(opt->freecb) (opt->values[i]->ptr);
 			}
@@ -2069,10 +2070,10 @@ static int cfg_free_searchpath(cfg_searchpath_t *p)
 	return CFG_SUCCESS;
 }
 
-DLLIMPORT int cfg_free(cfg_t *cfg)
+/* Release a section, or the root, and everything below it */
+static int cfg_free_section(cfg_t *cfg)
 {
 	int i;
-	int isroot = 0;
 
 	if (!cfg) {
 		errno = EINVAL;
@@ -2088,18 +2089,28 @@ DLLIMPORT int cfg_free(cfg_t *cfg)
 	cfg_free_opt_array(cfg->opts);
 	cfg_free_searchpath(cfg->path);
 
-	if (cfg->name) {
-		isroot = !strcmp(cfg->name, "root");
+	if (cfg->name)
 		free(cfg->name);
-	}
 	if (cfg->title)
 		free(cfg->title);
 	if (cfg->filename)
 		free(cfg->filename);
 
 	free(cfg);
-	if (isroot)
-		cfg_yylex_destroy();
+
+	return CFG_SUCCESS;
+}
+
+DLLIMPORT int cfg_free(cfg_t *cfg)
+{
+	if (cfg_free_section(cfg) != CFG_SUCCESS)
+		return CFG_FAIL;
+
+	/*
+	 * Only a context from cfg_init() is released by the user, a
+	 * section that merely is named "root" must not end up here.
+	 */
+	cfg_yylex_destroy();
 
 	return CFG_SUCCESS;
 }
@@ -2442,7 +2453,7 @@ DLLIMPORT int cfg_opt_rmnsec(cfg_opt_t *opt, unsigned int index)
 	}
 	--opt->nvalues;
 
-	cfg_free(val->section);
+	cfg_free_section(val->section);
 	free(val);
 
 	return CFG_SUCCESS;
